@@ -24,13 +24,17 @@ ALPHA_FAMILY = 1e-9
 MAX_COMPARISONS = 2e7  # per invocation; the per-comparison level is ALPHA_FAMILY / MAX_COMPARISONS
 LOG_ALPHA = math.log(ALPHA_FAMILY / MAX_COMPARISONS)
 RULE = (
-    "One case = one sample() call on a random state: MPS with qubits or qutrits (bond <= 8, any orthogonality centre, not "
+    "Three cases in four = one sample() call on a random state: MPS with qubits or qutrits (bond <= 8, any orthogonality centre, not "
     "normalised), state vector, density matrix; 2-8 atoms; 1..20000 shots; false-positive / false-negative rates in [0,1] incl. "
     "0 and 1; plus product states with one or more chosen excited atoms (deterministic outcomes). Non-trivial iff >= 2 outcomes "
-    "have non-zero probability; distinct by (state kind, N, physical dimension, shots bucket, error-rate class)."
+    "have non-zero probability; distinct by (state kind, N, physical dimension, shots bucket, error-rate class). Every fourth "
+    "case = the BitStrings results of a backend run (emu-mps with / without a scheduler-chosen internal order, emu-sv, emu-sv "
+    "Lindblad) on 2-5 irregularly spaced atoms: counts at each requested time against the Born distribution of the StateResult "
+    "of the same scenario, with readout errors from the config's noise model and with other observables (correlation matrix, "
+    "occupation, energies) evaluated on the shared state object before or after, in a tape-chosen order."
 )
-COMPONENTS = {"real": ["MPS.sample", "StateVector.sample", "DensityMatrix.sample", "emu_base.utils.apply_measurement_errors/readout_with_error", "index_to_bitstring"], "stubbed": ["torch / random RNG (seeded from the tape)"]}
-PROBES = ["mps_qubit", "mps_qutrit", "state_vector", "density_matrix", "readout_errors", "pfp_equals_1", "pfn_equals_1", "shots_not_multiple_of_32", "shots_ge_5000", "product_state_position", "zero_probability_strings_present", "single_shot"]
+COMPONENTS = {"real": ["MPS.sample", "StateVector.sample", "DensityMatrix.sample", "emu_base.utils.apply_measurement_errors/readout_with_error", "index_to_bitstring", "backend variant: MPSBackend.run / SVBackend.run, BitStrings callback, fill_results / _apply_observables, permute_results"], "stubbed": ["torch / random RNG (seeded from the tape)", "backend variant: clock, uuid, minimize_bandwidth (scheduler-chosen order)"]}
+PROBES = ["mps_qubit", "mps_qutrit", "state_vector", "density_matrix", "readout_errors", "pfp_equals_1", "pfn_equals_1", "shots_not_multiple_of_32", "shots_ge_5000", "product_state_position", "zero_probability_strings_present", "single_shot", "backend_run_bitstrings", "backend_bitstrings_under_non_identity_order", "backend_bitstrings_after_other_observables", "backend_readout_errors_from_config", "backend_density_matrix_run"]
 ASSUMPTIONS = [
     f"statistical acceptance: exact two-sided binomial test per output string against the Born model pushed through the independent bit-flip channel, per-comparison level {ALPHA_FAMILY}/{MAX_COMPARISONS:g}, i.e. family-wise false-alarm probability <= {ALPHA_FAMILY} per invocation for any VERIF_SEED",
     "qutrit MPS: the leakage level reads as 0; false positives are not implemented there (NotImplementedError is the documented behaviour) and are not generated",
@@ -150,6 +154,156 @@ def make_state(tape: Tape, g: torch.Generator) -> dict:
     return {"kind": f"product-{which}", "n": n, "d": 2, "state": st, "P": P, "bits": "".join("1" if b else "0" for b in bits)}
 
 
+def judge_counts(counts: Any, P: np.ndarray, n: int, shots: int, pfp: float, pfn: float, site: str, desc: dict, probes: dict, floor: float = 0.0) -> tuple[list[dict], int, int]:
+    """Per-draw invariants + exact binomial test of every output string against the Born model P pushed through the
+    independent bit-flip channel.  Returns (violations, number of comparisons or -1 if malformed, support size)."""
+    V: list[dict] = []
+    counts = {str(k): int(v) for k, v in counts.items()}
+    desc["counts_head"] = dict(sorted(counts.items(), key=lambda kv: -kv[1])[:6])
+    tot = sum(counts.values())
+    if tot != shots:
+        V.append({"clause": "C15.total-count", "site": site, "msg": f"{tot} samples returned for num_shots={shots} :: {desc}"})
+    bad = [k for k in counts if len(k) != n or set(k) - {"0", "1"}]
+    if bad:
+        V.append({"clause": "C15.malformed-string", "site": site, "msg": f"keys {bad[:4]} are not {n}-bit strings :: {desc}"})
+        return V, -1, 0
+    Q = channel(P, n, pfp, pfn)
+    Q = np.clip(Q, 0.0, 1.0)
+    if floor:
+        Q = np.maximum(Q, floor)
+    support = int(np.sum(Q > 1e-15))
+    if np.any(P < 1e-15):
+        probes["zero_probability_strings_present"] = 1
+    for k, c in counts.items():
+        if Q[int(k, 2)] <= 1e-15 and c > 0:
+            V.append({"clause": "C15.impossible-outcome", "site": site + ("|err" if (pfp or pfn) else ""), "msg": f"outcome '{k}' appeared {c} times but has probability 0 under the Born rule + readout channel :: {desc}"})
+            break
+    ncmp = 0
+    if tot == shots and not V:
+        worst = (0.0, None)
+        for idx in range(2**n):
+            q = float(Q[idx])
+            k = counts.get(format(idx, f"0{n}b"), 0)
+            if q <= max(1e-15, floor) and k == 0:
+                continue
+            ncmp += 1
+            lp = log_two_sided(k, shots, min(1.0, q))
+            if lp < worst[0]:
+                worst = (lp, idx)
+        if worst[1] is not None and worst[0] < LOG_ALPHA:
+            idx = worst[1]
+            sbits = format(idx, f"0{n}b")
+            V.append({"clause": "C15.distribution", "site": site + ("|err" if (pfp or pfn) else ""), "msg": f"outcome '{sbits}' appeared {counts.get(sbits, 0)} times in {shots} shots but has probability {float(Q[idx]):.6g} (two-sided exact binomial log p = {worst[0]:.1f} < {LOG_ALPHA:.1f}) :: {desc}"})
+    return V, ncmp, support
+
+
+def backend_case(tape: Tape) -> dict:
+    """BitStrings results of a backend run: the counts recorded at every requested time must follow the Born
+    distribution of the state at that time (taken from a separate StateResult run of the same scenario) pushed through
+    the config's readout-error channel - whatever other observables were evaluated on the shared state object before the
+    bit strings were sampled, and whatever internal qubit order the run used."""
+    from .. import mpsrun as M
+    from .. import scenario as S
+    from ..seams import World
+    from ._cal import sv_run_fn
+
+    be = tape.choice(["mps", "mps-reorder", "sv", "sv-lindblad"], "backend")
+    n = tape.int(2, 4 if be == "sv-lindblad" else 5, "n")
+    # irregular gaps: the distribution must not be symmetric under reversing the register
+    zig = round(tape.float(0.0, 5.0, "zigzag"), 2)
+    xs = [0.0]
+    for i in range(1, n):
+        xs.append(round(xs[-1] + tape.float(6.5, 10.0, f"gap{i}"), 2))
+    atoms = [[f"q{i}", xs[i], (i % 2) * zig] for i in range(n)]
+    T = tape.int(40, 160, "T")
+    dt = float(tape.choice([5, 10, 20], "dt"))
+    scn = {"atoms": atoms, "xy": False, "modulation": False, "has_local": False, "local_init": None, "dmm": None, "slm": None,
+           "ops": [{"op": "pulse", "ch": "g", "dur": T, "amp": {"k": "const", "v": round(tape.float(4.0, 10.0, "amp"), 3)}, "det": {"k": "ramp", "a": round(tape.float(-6.0, 0.0, "d0"), 3), "b": round(tape.float(0.0, 8.0, "d1"), 3)}, "phase": 0.0}]}
+    times = sorted({1.0} | ({0.5} if tape.bool(0.5, "mid_time") else set()))
+    shots = tape.choice([50, 500, 2000, 5000], "shots")
+    err_class = tape.weighted(["none", "small", "any", "fn_only", "fp_only"], [0.4, 0.2, 0.15, 0.125, 0.125], "err_class")
+    pfp = pfn = 0.0
+    if err_class == "small":
+        pfp, pfn = round(tape.float(0.0, 0.1, "pfp"), 3), round(tape.float(0.0, 0.1, "pfn"), 3)
+    elif err_class == "any":
+        pfp, pfn = round(tape.float(0.0, 1.0, "pfp"), 3), round(tape.float(0.0, 1.0, "pfn"), 3)
+    elif err_class == "fn_only":
+        pfn = round(tape.float(0.05, 0.6, "pfn"), 3)
+    elif err_class == "fp_only":
+        pfp = round(tape.float(0.05, 0.6, "pfp"), 3)
+    if pfp or pfn:
+        shots = min(shots, 2000)
+    lind: dict[str, Any] = {}
+    if be == "sv-lindblad":
+        lind = {tape.choice(["dephasing_rate", "relaxation_rate", "depolarizing_rate"], "lind"): round(tape.float(0.5, 4.0, "rate"), 3)}
+    noise = dict(lind)
+    if pfp or pfn:
+        noise.update(p_false_pos=pfp, p_false_neg=pfn)
+    others = [k for k in ("correlation_matrix", "occupation", "energy", "energy_variance") if tape.bool(0.5, f"with_{k}")]
+    obs = [{"kind": k, "times": times} for k in others] + [{"kind": "bitstrings", "times": times, "shots": shots}]
+    order = tape.permutation(len(obs), "obs_order")
+    obs = [obs[i] for i in order]
+    backend = "sv" if be.startswith("sv") else "mps"
+    cfg: dict[str, Any] = {"backend": backend, "dt": dt, "observables": obs, "default_times": None, "precision": 1e-8, "max_bond_dim": 1024, "optimize": be == "mps-reorder", "solver": "tdvp", "noise": noise or None, "n_trajectories": 1 if (pfp or pfn) else None}
+    ref_cfg = {**cfg, "observables": [{"kind": "state", "times": times}], "optimize": False, "noise": lind or None, "n_trajectories": None}
+    perm = tape.permutation(n, "perm") if be == "mps-reorder" else list(range(n))
+    seeds = (tape.seed32("seed_py"), tape.seed32("seed_np"), tape.seed32("seed_torch"))
+    desc = {"state": f"backend-{be}", "n": n, "d": 2, "shots": shots, "p_false_pos": pfp, "p_false_neg": pfn, "atoms": atoms, "drive": scn["ops"][0], "dt": dt, "times": times, "observable_order": [o["kind"] for o in obs], "internal_order": perm, "lindblad": lind}
+    V: list[dict] = []
+    probes: dict[str, int] = {"backend_run_bitstrings": 1}
+    ncmp_total = 0
+    support = 0
+    site = f"backend-{be}"
+    world = World("c15")
+    try:
+        seq = S.build_sequence(scn)
+        world.clock.policy = lambda k: 0.002
+        mk = (lambda c: sv_run_fn(seq, scn, c)) if backend == "sv" else (lambda c: M.mps_run_fn(seq, scn, c, autosave_dt=None))
+        chooser = (lambda matrix, real: perm) if be == "mps-reorder" else None
+        ref = M.run_incarnation(world, mk(ref_cfg), seeds=seeds)
+        out = M.run_incarnation(world, mk(cfg), seeds=seeds, perm_chooser=chooser)
+        if ref.error is not None:
+            return {"violations": [], "case": (f"{site}|reference-raised", False), "probes": probes, "desc": {**desc, "skipped": f"reference-raised:{ref.error_site}"}, "ncmp": 0}
+        if out.error is not None:
+            V.append({"clause": "C15.sample-raised", "site": f"{site}|{out.error_site}", "msg": f"the run recording BitStrings raised {out.error!r} although the same scenario runs with StateResult :: {desc}"})
+            return {"violations": V, "case": (f"{site}|raised", False), "probes": probes, "desc": desc, "ncmp": 0}
+        states = dict((t, v) for t, v in ref.results["tags"].get("state", []))
+        recs = out.results["tags"].get("bitstrings", [])
+        if [t for t, _ in recs] != times:
+            V.append({"clause": "C15.bitstrings-times", "site": site, "msg": f"bitstrings recorded at {[t for t, _ in recs]}, requested {times} :: {desc}"})
+        for t, v in recs:
+            st = states.get(t, {}).get("__state__") if isinstance(states.get(t), dict) else None
+            if st is None or not isinstance(v, dict) or "__counter__" not in v:
+                continue
+            a = np.asarray(st)
+            P = np.real(np.diagonal(a)).copy() if a.ndim == 2 else np.abs(a.reshape(-1)) ** 2
+            if P.size != 2**n or not np.isfinite(P).all() or P.sum() <= 0:
+                continue
+            P = np.clip(P, 0.0, None)
+            P = P / P.sum()
+            d2 = {**desc, "time": t}
+            jv, ncmp, sup = judge_counts(v["__counter__"], P, n, shots, pfp, pfn, site, d2, probes, floor=1e-9)
+            for x in jv:
+                x["msg"] = x["msg"]
+            V.extend(jv)
+            desc["counts_head"] = d2.get("counts_head")
+            ncmp_total += max(0, ncmp)
+            support = max(support, sup)
+        if be == "mps-reorder" and perm != list(range(n)):
+            probes["backend_bitstrings_under_non_identity_order"] = 1
+        if obs[0]["kind"] != "bitstrings":
+            probes["backend_bitstrings_after_other_observables"] = 1
+        if pfp or pfn:
+            probes["backend_readout_errors_from_config"] = 1
+        if be == "sv-lindblad":
+            probes["backend_density_matrix_run"] = 1
+    finally:
+        world.close()
+    seen: set = set()
+    V = [v for v in V if not ((v["clause"], v["site"]) in seen or seen.add((v["clause"], v["site"])))]
+    return {"violations": V, "case": (f"{site}|N{n}|{err_class}|{','.join(o['kind'][:4] for o in obs)}", support >= 2), "probes": probes, "desc": desc, "ncmp": ncmp_total}
+
+
 def one_case(tape: Tape) -> dict:
     g = torch.Generator()
     g.manual_seed(tape.seed32("state_seed"))
@@ -191,42 +345,10 @@ def one_case(tape: Tape) -> dict:
         tb = traceback.extract_tb(e.__traceback__)
         V.append({"clause": "C15.sample-raised", "site": f"{type(e).__name__}@{tb[-1].name if tb else '?'}", "msg": f"sample() raised {e!r} :: {desc}"})
         return {"violations": V, "case": (f"{kind}|raised", False), "probes": probes, "desc": desc, "ncmp": 0}
-    counts = {str(k): int(v) for k, v in counts.items()}
-    desc["counts_head"] = dict(sorted(counts.items(), key=lambda kv: -kv[1])[:6])
-    # ---- per-draw invariants
-    tot = sum(counts.values())
-    if tot != shots:
-        V.append({"clause": "C15.total-count", "site": kind.split("-")[0], "msg": f"{tot} samples returned for num_shots={shots} :: {desc}"})
-    bad = [k for k in counts if len(k) != n or set(k) - {"0", "1"}]
-    if bad:
-        V.append({"clause": "C15.malformed-string", "site": kind.split("-")[0], "msg": f"keys {bad[:4]} are not {n}-bit strings :: {desc}"})
+    jv, ncmp, support = judge_counts(counts, S["P"], n, shots, pfp, pfn, kind.split("-")[0], desc, probes)
+    V.extend(jv)
+    if ncmp < 0:
         return {"violations": V, "case": (f"{kind}|malformed", False), "probes": probes, "desc": desc, "ncmp": 0}
-    Q = channel(S["P"], n, pfp, pfn)
-    Q = np.clip(Q, 0.0, 1.0)
-    support = int(np.sum(Q > 1e-15))
-    if np.any(S["P"] < 1e-15):
-        probes["zero_probability_strings_present"] = 1
-    for k, c in counts.items():
-        if Q[int(k, 2)] <= 1e-15 and c > 0:
-            V.append({"clause": "C15.impossible-outcome", "site": kind.split("-")[0] + ("|err" if (pfp or pfn) else ""), "msg": f"outcome '{k}' appeared {c} times but has probability 0 under the Born rule + readout channel :: {desc}"})
-            break
-    # ---- distribution: exact binomial test per string
-    ncmp = 0
-    if tot == shots and not V:
-        worst = (0.0, None)
-        for idx in range(2**n):
-            q = float(Q[idx])
-            k = counts.get(format(idx, f"0{n}b"), 0)
-            if q <= 1e-15 and k == 0:
-                continue
-            ncmp += 1
-            lp = log_two_sided(k, shots, min(1.0, q))
-            if lp < worst[0]:
-                worst = (lp, idx)
-        if worst[1] is not None and worst[0] < LOG_ALPHA:
-            idx = worst[1]
-            s = format(idx, f"0{n}b")
-            V.append({"clause": "C15.distribution", "site": kind.split("-")[0] + ("|err" if (pfp or pfn) else ""), "msg": f"outcome '{s}' appeared {counts.get(s, 0)} times in {shots} shots but has probability {float(Q[idx]):.6g} (two-sided exact binomial log p = {worst[0]:.1f} < {LOG_ALPHA:.1f}) :: {desc}"})
     pk = kind.split("-")[0]
     probes[{"mps2": "mps_qubit", "mps3": "mps_qutrit", "sv": "state_vector", "dm": "density_matrix", "product": "product_state_position"}[pk]] = 1
     if pfp or pfn:
@@ -247,7 +369,7 @@ def one_case(tape: Tape) -> dict:
 
 def run_one(tape: Tape, tier: str, opts: dict) -> dict:
     if opts.get("single"):
-        d = one_case(tape)
+        d = backend_case(tape) if opts["single"] == "backend" else one_case(tape)
         return {"violations": d["violations"], "cases": [d["case"]], "evals": 1, "probes": d["probes"], "digest": hashlib.sha256(repr(d["desc"]).encode()).hexdigest(), "scenario": d["desc"], "ncmp": d["ncmp"]}
     n = 12 if tier == "quick" else 25
     viol: list[dict] = []
@@ -259,7 +381,8 @@ def run_one(tape: Tape, tier: str, opts: dict) -> dict:
     shots = 0
     for i in range(n):
         sub = Tape(seed=tape.int(0, 2**62, "sub"))
-        d = one_case(sub)
+        is_backend = i % 4 == 3  # every fourth case goes through a backend run (BitStrings results)
+        d = backend_case(sub) if is_backend else one_case(sub)
         h.update(repr(d["desc"]).encode())
         cases.append(d["case"])
         ncmp += d["ncmp"]
@@ -268,7 +391,7 @@ def run_one(tape: Tape, tier: str, opts: dict) -> dict:
             probes[k] = probes.get(k, 0) + c
         for v in d["violations"]:
             v["tape_override"] = sub.record
-            v["opts_override"] = {"single": "1"}
+            v["opts_override"] = {"single": "backend" if is_backend else "1"}
             viol.append(v)
         if sample is None and d["case"][1]:
             sample = d["desc"]
